@@ -40,7 +40,7 @@ def iter_shape(ex, node: ast.For, st):
             d = d.val
         from .sorts import VBDict
         if isinstance(d, VBDict) and it.func.attr == "items":
-            keys = VSeq(d.keys, S.Ballot if d.kelem == "ballot" else S.Seq(S.Str))
+            keys = VSeq(d.keys, {"ballot": S.Ballot, "strseq": S.Seq(S.Str), "rankseq": S.Seq(S.CSet)}[d.kelem])
 
             def bindb(s2, k, el):
                 idx = k if not isinstance(k, int) else z3.IntVal(k)
